@@ -126,13 +126,17 @@ Inductive body :=
 | BHi (h : hi_f)
 | BLogin (l : login_f)
 | BAcc (a : acc_f)
-| BTopic (t : tkind) (sender : option N)   (* sender: client-supplied head.sender of a {pub} *).
+| BTopic (t : tkind) (sender : option N) (logout : bool)
+  (* sender: client-supplied head.sender of a {pub}.
+     logout: ORACLE, meaningful for {sub} only: the topic initialiser (initTopicMe /
+     initTopicFnd, init_topic.go 141-145, 198) did not find the ACTING user's account and
+     "logged the session out" by zeroing Session.uid (Session.authLvl is left alone). *).
 
 Record msg := { m_extra : extra; m_body : body }.
 
 Definition kind_of (m : msg) : kind :=
   match m_body m with
-  | BHi _ => KHi | BLogin _ => KLogin | BAcc _ => KAcc | BTopic t _ => kind_of_tkind t
+  | BHi _ => KHi | BLogin _ => KLogin | BAcc _ => KAcc | BTopic t _ _ => kind_of_tkind t
   end.
 
 (** ** Guard table *)
@@ -323,8 +327,9 @@ Definition dispatch (t : table) (st : sstate) (m : msg) : result :=
                     {| r_state := st'; r_replies := rs; r_call := c None; r_panic := false |}
       | BAcc a => let '(st', rs, p) := acc st au al a in
                   {| r_state := st'; r_replies := rs; r_call := c None; r_panic := p |}
-      | BTopic tk sender =>
-        {| r_state := st; r_replies := [];
+      | BTopic tk sender lo =>
+        {| r_state := (match tk with TSub => if lo then set_user st 0 (lvl st) else st | _ => st end);
+           r_replies := [];
            r_call := c (match tk with TPub => scrub_sender (uid st) au sender | _ => None end);
            r_panic := false |}
       end
@@ -366,7 +371,23 @@ Definition grants (m : msg) : option (N * N) :=
   | _ => None
   end.
 
+(** Does the message trigger the log-out side effect of the topic initialisers. *)
+Definition logs_out (m : msg) : bool :=
+  match m_body m with BTopic TSub _ true => true | _ => false end.
+
 (** The authenticators only vouch for existing users at a real level (validated on the
     implementation by the driver's monitor [auth-outcome-wellformed]). *)
 Definition wf_msg (m : msg) : Prop :=
   forall u l, grants m = Some (u, l) -> u <> 0 /\ l <> LNone.
+
+(** Number of steps of a run at which an unauthenticated session becomes authenticated. *)
+Fixpoint auth_steps (t : table) (st : sstate) (ms : list msg) : nat :=
+  match ms with
+  | [] => O
+  | m :: r =>
+    let st' := r_state (dispatch t st m) in
+    ((if (uid st =? 0) && negb (uid st' =? 0) then 1 else 0) + auth_steps t st' r)%nat
+  end.
+
+(** Is the request refused by the dispatch level / by the handlers modelled here. *)
+Definition refusal (r : reply) : Prop := 400 <= code_of r < 500.
